@@ -20,6 +20,8 @@ func C15(c *Ctx) {
 	c.R.Rule("C15-R2", "E6", "field exhaustiveness of the change report and its consumers", 6)
 	c.R.Rule("C15-R5", "E6", "the copy the store keeps of a reported spec source is faithful", 1)
 	c.shareRule("C09", "C09-R1", "C15-R7", "what the engine puts into bindings survives the store's JSON form unchanged (a state equal as text behaves equally)")
+	c.R.Rule("C15-R8", "E5", "the stdio host's store starts from what the crew is rebuilt from: Read decodes into the field the output loop updates and writeState writes", 1)
+	c15StoreSeeded(c, "C15-R8")
 	c.R.Rule("C15-R6", "E1", "nothing behaviour-relevant lives outside the reported node and bindings: no script runtime outlives an execution", 3)
 	if ea, ex := c.ecmaAnalysis(); ea != nil {
 		c.runtimeFresh("C15-R6", ea, ex)
@@ -330,6 +332,47 @@ func C15(c *Ctx) {
 		}
 	})
 	c.R.Check(delApply && delReport && len(delM.Blocks) == 1, "C15-R1", "DeleteMachine: removed and reported", c.P.Pos(delM.Pos()), "delete from the crew and Changed.Deleted = true, unconditionally", "a deletion is not both applied and reported")
+	// every removal of a crew member anywhere in package sio is reported as a deletion on every path that follows
+	nrem := 0
+	for _, f := range c.P.FuncsIn("sio") {
+		var pd *flow.PostDom
+		ssau.Instrs(f, func(in ssa.Instruction) {
+			ci, ok := in.(ssa.CallInstruction)
+			if !ok {
+				return
+			}
+			b, isB := ci.Common().Value.(*ssa.Builtin)
+			if !isB || b.Name() != "delete" {
+				return
+			}
+			if _, is := ssau.LoadOfField(ci.Common().Args[0], prog.Abs("sio"), "Crew", "Machines"); !is {
+				return
+			}
+			nrem++
+			if pd == nil {
+				pd = flow.NewPostDom(f)
+			}
+			reported := false
+			ssau.Instrs(f, func(in2 ssa.Instruction) {
+				st, isSt := in2.(*ssa.Store)
+				if !isSt || !isChangeField(st.Addr, "Deleted") {
+					return
+				}
+				cst, isC := st.Val.(*ssa.Const)
+				if !isC || cst.Value == nil || cst.Value.String() != "true" {
+					return
+				}
+				_, _, base, _ := ssau.FieldOf(st.Addr)
+				if cl, isCl := base.(*ssa.Call); !isCl || len(cl.Common().Args) < 2 || cl.Common().Args[1] != ci.Common().Args[1] {
+					return
+				}
+				if st.Block() == in.Block() && flow.Index(in) < flow.Index(st) || st.Block() != in.Block() && pd.PostDominates(st.Block(), in.Block()) {
+					reported = true
+				}
+			})
+			c.R.Check(reported, "C15-R1", fmt.Sprintf("%s: removal of a crew member #%d is reported as a deletion", fname(f), nrem), c.pos(in), "delete(Machines, id) is followed on every path by change(id).Deleted = true", "a machine is removed from the crew without a deletion being recorded for it: the store keeps (or is still sent) a record of a machine that the crew no longer has")
+		})
+	}
 	// (The order of deletions and updates inside one crew operation is not checked: since SetMachine withdraws a
 	// pending deletion — rule "a pending deletion of the machine is withdrawn" above — either order is reported
 	// faithfully.  An earlier rule demanded updates before deletions; it had become a false alarm.)
